@@ -11,6 +11,7 @@ LEVEL_NOTE = ('for each reader the per-entry body is proved exception-free for '
               'arbitrary listing); sorting is total for every mix of dated and '
               'undated entries')
 EXPECTED = [
+    'list-action/every-message-is-printed-exactly-once',
     'list-options/trash-dirs-are-the-option-values-in-order',
     'list-options/attribute-is-the-date-unless-size',
     'list-options/action-is-listing-unless-the-last-action-flag-says-otherwise',
@@ -36,6 +37,7 @@ def build(S, tier, seed):
     purge.empty_vc(S, dry_run=False)
     restore.sort_vc(S)
     options.list_options_vc(S)
+    readers.list_action_vc(S)
 
 
 MALFORMED = [
